@@ -110,6 +110,7 @@ func Unlock(m *sync.Mutex) {
 	if c := s.mconds[m]; c != nil && len(c.waiters) > 0 {
 		c.Broadcast()
 	}
+	postUnlock()
 }
 
 func RWLock(m *sync.RWMutex) {
@@ -136,6 +137,7 @@ func RWUnlock(m *sync.RWMutex) {
 	if c := s.mconds[m]; c != nil && len(c.waiters) > 0 {
 		c.Broadcast()
 	}
+	postUnlock()
 }
 
 func RLock(m *sync.RWMutex) {
@@ -162,9 +164,39 @@ func RUnlock(m *sync.RWMutex) {
 	if c := s.mconds[m]; c != nil && len(c.waiters) > 0 {
 		c.Broadcast()
 	}
+	postUnlock()
 }
 
 // WaitGroupWait is wg.Wait() with the baton released (durably blocking in a bubble).
 func WaitGroupWait(wg *sync.WaitGroup) {
 	Block(func() { wg.Wait() })
+}
+
+// UnlockOff switches the pre-emption point behind an unlock off (replay files of format 1-3).
+var UnlockOff bool
+
+// postUnlock is a pre-emption point right after a mutex was released: a task waiting for it may
+// run its whole critical section before the releasing task executes its next statement ("unlock,
+// then publish what was decided under the lock"). Half of the runs have it (the schedule tape
+// decides at the first unlock), with the run's pre-emption coin.
+func postUnlock() {
+	s := S
+	if UnlockOff || s == nil {
+		return
+	}
+	t := s.cur
+	if t == nil || s.killed || t.noPre > 0 || s.PreemptDen < 2 {
+		return
+	}
+	if !s.unlInit {
+		s.unlInit = true
+		s.unlOn = s.Tape.Choose(2) == 1
+	}
+	if !s.unlOn || s.Tape.Choose(s.PreemptDen) != 1 {
+		return
+	}
+	s.Preemptions++
+	s.UnlockYields++
+	s.release(t, stInOp)
+	s.acquire(t)
 }
